@@ -7,6 +7,9 @@ from .. import asmfacts
 
 ROUND = re.compile(r'^(v?aes(enc|dec)(last)?|v?movdq[au](8|16|32|64)?|v?mov[au]ps|vbroadcast[if]\d+x\d|vbroadcasti128|vextracti64x2|'
                    r'v?pxor[dq]?|vpternlogq|nop|jmp|xchg)$')
+# only the vector data path is compared: scalar control code (flag-setting idioms, address arithmetic, moves, branches) is rewritten
+# in one copy of a kernel without the others following, and says nothing about the cipher
+DATAPATH = re.compile(r'^(v?p[a-z]|v?(shuf|unpck|blend|perm|align|insert|extract|gf2p8|sha|pclmul)|vp|k(and|or|xor|not|shift|add|unpck))')
 EXCEPT = {
     re.compile(r'^aes_keyexp_N'): 'the AES key schedule itself differs per key size (FIPS-197)',
     re.compile(r'^submit_job_aesN_cfb_enc_vaes_avx512$'): 'INSERT_KEYS copies round keys in groups whose structure depends on the key count',
@@ -42,7 +45,8 @@ def rule_clones(chk, rid, select=None, floor=20):
         keys = set()
         for n in names:
             keys |= set(hist[n])
-        diff = {k: [hist[n].get(k, 0) for n in names] for k in keys if not ROUND.match(k) and len({hist[n].get(k, 0) for n in names}) > 1}
+        diff = {k: [hist[n].get(k, 0) for n in names] for k in keys
+                if DATAPATH.match(k) and not ROUND.match(k) and len({hist[n].get(k, 0) for n in names}) > 1}
         if diff:
             # name the odd one out
             odd = None
